@@ -132,3 +132,7 @@ impl Reader {
         }
     }
 }
+
+#[cfg(kani)]
+#[path = "/verif/harness/transport_real_reader.rs"]
+pub(crate) mod verif_harness;
